@@ -12,6 +12,7 @@ CONSTANTS
     PRIOS = {0}
     JUNK = {"garbage"}
     MAXJUNK = 0
+    REKEEP = FALSE
     MAXSAVES = 0
     ImportCleans = TRUE
     UnmarshalMode = "merge"
